@@ -235,3 +235,5 @@ A(V("c03-glyf-split-case", ["C03", "C19"], "ttLib/tables/_g_l_y_f.py", "        
 A(V("c08-distances-dropped", "C08", INS, "                mappedMax,\n                axisRange.distanceNegative,\n                axisRange.distancePositive,\n            )", "                mappedMax,\n            )", "DIST"))
 A(V("c04-woff2-head-before-loca", "C04", "ttLib/woff2.py", "            self._normaliseGlyfAndLoca(padding=4)\n        self._setHeadTransformFlag()\n", "            self._setHeadTransformFlag()\n            self._normaliseGlyfAndLoca(padding=4)\n", "W2-order"))
 A(V("c02-svg-signed-offset", ["C01", "C02"], "ttLib/tables/S_V_G_.py", '">HHLL", doc.startGlyphID', '">HHlL", doc.startGlyphID', "F1w"))
+A(V("c02-head-xmin-unsigned", ["C02", "C04"], "ttLib/tables/_h_e_a_d.py", "xMin:               h", "xMin:               H", "SPEC-LAY"))
+A(V("c02-hhea-advance-signed", ["C02", "C04"], "ttLib/tables/_h_h_e_a.py", "advanceWidthMax:        H", "advanceWidthMax:        h", "SPEC-LAY"))
